@@ -139,6 +139,19 @@ def t_{i:03d}(c0: int, c1: int, c2: int, x: int, y: int, p: bool) -> bool:
     return sx.write_module('c08_h', ''.join(src))
 
 
+def _sx_duplicate_class(i, a, k) -> bool:
+    from vf.harness import c08_sx
+    import inspect
+    names = list(inspect.signature(c08_sx.body).parameters)[1:]
+    vals = dict(zip(names, a))
+    vals.update(k)
+    try:
+        spec = c08_sx.subst(c08_sx.TEMPLATES[i][1], (vals.get('c0', 0), vals.get('c1', 0), vals.get('c2', 0)))
+        return duplicate_set_aggregate(gen.build(spec))
+    except Exception:
+        return False
+
+
 def run_sx(ck: Check, tier: str, pid: str = 'C08'):
     from vf.harness import c08_sx
     T = c08_sx.TEMPLATES
@@ -170,6 +183,9 @@ def run_sx(ck: Check, tier: str, pid: str = 'C08'):
                 got = ('exception-in-replay', name, type(e).__name__, short(e, 120))
             if got is None:
                 ck.undecided(f'SX counterexample for template "{name}" does not replay in plain Python: {r.message[:200]}')
+            elif got[0] == 'different' and _sx_duplicate_class(i, a, k):
+                ck.counterexample('not-equivalent:aggregate-over-set-with-duplicate-elements', f'template {name} with literals/valuation {a} {k}: {got} (different under both readings of the set)',
+                                  {'kind': 'sx', 'template': i, 'name': name, 'args': a, 'kwargs': k, 'observed': [str(g) for g in got]})
             else:
                 ck.counterexample(f'sx:{got[0]}:{name}', f'template {name} with literals/valuation {a} {k}: {got}',
                                   {'kind': 'sx', 'template': i, 'name': name, 'args': a, 'kwargs': k, 'observed': [str(g) for g in got]})
